@@ -92,6 +92,11 @@ def run(ctx):
     src_obs, src_info = srctie.obligations(ctx, "callback", "C07")
     rep.add_obligations(src_obs)
     rep.extra["source_tie"] = src_info
+    # source tie: Receiver.run_task (the meaning of callback's `await self.run_task(...)`) re-translated from the source
+    # text; srcproofs/Src_run_task_C07.v re-checked against it
+    rt_obs, rt_info = srctie.obligations(ctx, "run_task", "C07")
+    rep.add_obligations(rt_obs)
+    rep.extra["source_tie_run_task"] = rt_info
     L.explore(ctx, rep, "C07", L.load_corpus_cases("C07"), "corpus", ORACLES, nontrivial)
     r = ctx.sub_rng("gen")
     broken = L.explore(ctx, rep, "C07", [L.gen_recv(r, "c07") for _ in range(ctx.n(900, 20000))], "main", ORACLES,
